@@ -3,14 +3,21 @@
 into terms of the PyMini syntax (coq/Spec/PyMini.v) -> coq/Gen/Pure.v.
 
 The translator decides nothing about meaning: one AST node becomes one constructor.
-The reference interpreter in Spec/PyMini.v gives the meaning, and Proofs/PureTie.v
-proves for ALL arguments that the generated trees compute what the hand-written models
-(Model/Slice.v, Model/Width.v, Model/Keys.v) compute.  So the theorems about those
-models are re-checked, on every run, against the function text that is in /repo NOW.
+The reference interpreter in Spec/PyMini.v gives the meaning, and Proofs/PureTie.v,
+Proofs/PureTieKeys.v prove for ALL arguments that the generated trees compute what the
+hand-written models (Model/Slice.v, Model/Width.v, Model/Keys.v) compute.  So the theorems
+about those models are re-checked, on every run, against the function text that is in /repo NOW.
+
+Besides the trees it dumps the member names of the Enum classes the functions mention
+(py_enums), and it checks -- without deciding anything -- that every free name of a translated
+function is accounted for: a builtin that the module does not shadow, a module-level function
+that is itself translated, one of the tables dumped by gen_tables.py, an Enum class, or the
+stdlib module `codecs`.  (What these names MEAN is again in Coq: Spec/PyEnv.v.)
 
 Fails closed: any node outside the subset raises, the check then reports the broken tie.
 """
 import ast
+import enum
 import inspect
 import os
 import sys
@@ -26,15 +33,24 @@ FUNCTIONS = [
     ("curtsies.formatstring", "normalize_slice", "py_normalize_slice"),
     ("curtsies.formatstring", "interval_overlap", "py_interval_overlap"),
     ("curtsies.events", "could_be_unfinished_utf8", "py_could_be_unfinished_utf8"),
+    ("curtsies.events", "decodable", "py_decodable"),
+    ("curtsies.events", "could_be_unfinished_char", "py_could_be_unfinished_char"),
+    ("curtsies.events", "_key_name", "py_key_name"),
+    ("curtsies.events", "get_key", "py_get_key"),
 ]
 
-EXN = {"IndexError", "ValueError", "TypeError", "KeyError", "AssertionError", "NotImplementedError"}
-BINOP = {ast.Add: "BAdd", ast.Sub: "BSub", ast.Mult: "BMul", ast.BitAnd: "BBitAnd", ast.BitOr: "BBitOr"}
+EXN = {"IndexError", "ValueError", "TypeError", "KeyError", "AssertionError", "NotImplementedError",
+       "UnicodeDecodeError"}
+BINOP = {ast.Add: "BAdd", ast.Sub: "BSub", ast.Mult: "BMul", ast.BitAnd: "BBitAnd", ast.BitOr: "BBitOr",
+         ast.Mod: "BMod"}
 CMPOP = {ast.Lt: "CLt", ast.LtE: "CLtE", ast.Gt: "CGt", ast.GtE: "CGtE", ast.Eq: "CEq", ast.NotEq: "CNotEq",
-         ast.Is: "CIs", ast.IsNot: "CIsNot"}
-CALL1 = {"len", "ord", "abs", "bool", "int"}
-CALL2 = {"max", "min", "isinstance", "slice"}
-CALL3 = {"slice"}
+         ast.Is: "CIs", ast.IsNot: "CIsNot", ast.In: "CIn", ast.NotIn: "CNotIn"}
+# names the interpreter treats as builtins (functions and classes): must not be shadowed by the module
+BUILTINS = {"len", "ord", "abs", "bool", "int", "all", "any", "max", "min", "isinstance", "slice", "range",
+            "bytes", "str"}
+# module-level data dumped by gen/gen_tables.py from the same live module (coq/Gen/Tables.v)
+TABLE_GLOBALS = {"curtsies.events": {"CURTSIES_NAMES", "CURSES_NAMES", "KEYMAP_PREFIXES", "MAX_KEYPRESS_SIZE"}}
+STDLIB_MODULES = {"codecs"}
 
 
 class TieError(Exception):
@@ -46,9 +62,28 @@ def bad(node, why):
 
 
 def q(s):
-    if '"' in s:
-        raise TieError("identifier with a quote: %r" % s)
+    if '"' in s or not s.isascii():
+        raise TieError("identifier outside the subset: %r" % s)
     return '"%s"' % s
+
+
+def nlist(codes):
+    return "[%s]%%N" % "; ".join(str(c) for c in codes)
+
+
+def call_arg(e):
+    """an argument of a call: a generator expression is allowed here and only here (it is
+    consumed by the call it is passed to)"""
+    if isinstance(e, ast.GeneratorExp):
+        if len(e.generators) != 1:
+            bad(e, "generator expression with several `for`")
+        g = e.generators[0]
+        if g.ifs or g.is_async or not isinstance(g.target, ast.Name):
+            bad(e, "generator expression outside the subset")
+        return "(EGenExp %s %s %s)" % (expr(e.elt), q(g.target.id), expr(g.iter))
+    if isinstance(e, ast.Starred):
+        bad(e, "starred argument")
+    return expr(e)
 
 
 def expr(e):
@@ -62,6 +97,10 @@ def expr(e):
             return "(EBoolC %s)" % ("true" if v else "false")
         if type(v) is int:
             return "(EInt (%d)%%Z)" % v
+        if type(v) is str:
+            return "(EStr %s)" % nlist(ord(c) for c in v)
+        if type(v) is bytes:
+            return "(EBytes %s)" % nlist(v)
         bad(e, "constant outside the subset")
     if isinstance(e, ast.BinOp):
         if type(e.op) not in BINOP:
@@ -79,8 +118,6 @@ def expr(e):
         op = type(e.ops[0])
         if op not in CMPOP:
             bad(e, "comparison operator outside the subset")
-        if op in (ast.Is, ast.IsNot) and not (isinstance(e.comparators[0], ast.Constant) and e.comparators[0].value is None):
-            bad(e, "`is` against something other than None")
         return "(ECmp %s %s %s)" % (CMPOP[op], expr(e.left), expr(e.comparators[0]))
     if isinstance(e, ast.BoolOp):
         ctor = "EAnd" if isinstance(e.op, ast.And) else "EOr"
@@ -92,27 +129,36 @@ def expr(e):
     if isinstance(e, ast.Attribute):
         return "(EAttr %s %s)" % (expr(e.value), q(e.attr))
     if isinstance(e, ast.Call):
-        if not isinstance(e.func, ast.Name) or e.keywords:
+        if e.keywords:
+            bad(e, "keyword arguments")
+        n = len(e.args)
+        if isinstance(e.func, ast.Attribute):                      # obj.name(arg)
+            if n != 1:
+                bad(e, "method call with %d arguments" % n)
+            return "(EMeth1 %s %s %s)" % (expr(e.func.value), q(e.func.attr), call_arg(e.args[0]))
+        if not isinstance(e.func, ast.Name):
             bad(e, "call outside the subset")
-        f, n = e.func.id, len(e.args)
-        if any(isinstance(a, ast.Starred) for a in e.args):
-            bad(e, "starred argument")
-        if n == 1 and f in CALL1:
-            return "(ECall1 %s %s)" % (q(f), expr(e.args[0]))
-        if n == 2 and f in CALL2:
-            if f == "isinstance" and not isinstance(e.args[1], ast.Name):
-                bad(e, "isinstance against something other than a class name")
-            return "(ECall2 %s %s %s)" % (q(f), expr(e.args[0]), expr(e.args[1]))
-        if n == 3 and f in CALL3:
-            return "(ECall3 %s %s %s %s)" % (q(f), expr(e.args[0]), expr(e.args[1]), expr(e.args[2]))
-        bad(e, "call of %s/%d outside the subset" % (f, n))
+        f = e.func.id
+        if f == "isinstance" and (n != 2 or not isinstance(e.args[1], ast.Name)):
+            bad(e, "isinstance against something other than a class name")
+        if n == 1:
+            return "(ECall1 %s %s)" % (q(f), call_arg(e.args[0]))
+        if n == 2:
+            return "(ECall2 %s %s %s)" % (q(f), call_arg(e.args[0]), call_arg(e.args[1]))
+        if n == 3:
+            return "(ECall3 %s %s %s %s)" % (q(f), call_arg(e.args[0]), call_arg(e.args[1]), call_arg(e.args[2]))
+        bad(e, "call of %s with %d arguments" % (f, n))
     if isinstance(e, ast.Subscript):
         s = e.slice
-        if not isinstance(s, ast.Slice) or s.step is not None:
+        if isinstance(s, ast.Slice):
+            if s.step is not None:
+                bad(e, "slice with a step")
+            lo = "None" if s.lower is None else "(Some %s)" % expr(s.lower)
+            hi = "None" if s.upper is None else "(Some %s)" % expr(s.upper)
+            return "(ESub %s %s %s)" % (expr(e.value), lo, hi)
+        if isinstance(s, ast.Tuple):
             bad(e, "subscript outside the subset")
-        lo = "None" if s.lower is None else "(Some %s)" % expr(s.lower)
-        hi = "None" if s.upper is None else "(Some %s)" % expr(s.upper)
-        return "(ESub %s %s %s)" % (expr(e.value), lo, hi)
+        return "(EIndex %s %s)" % (expr(e.value), expr(s))
     bad(e, "expression outside the subset")
 
 
@@ -124,9 +170,30 @@ def block(stmts, ind):
     return "[\n" + ";\n".join(pad + "  " + i for i in items) + "\n" + pad + "]"
 
 
+def message_ok(m):
+    """the message of raise X(msg) / assert c, msg is not modelled (exceptions are identified by their
+    class): it must be an expression whose evaluation cannot itself raise for the values of the subset --
+    a string constant, an f-string over plain names, or `constant % name` with a single %r / %s conversion
+    (there are no tuples)"""
+    if isinstance(m, ast.Constant) and type(m.value) is str:
+        return True
+    if isinstance(m, ast.JoinedStr):                       # f"... {name!r} ..."
+        return all((isinstance(v, ast.Constant) and type(v.value) is str)
+                   or (isinstance(v, ast.FormattedValue) and isinstance(v.value, ast.Name)
+                       and v.conversion in (-1, 114, 115) and v.format_spec is None)
+                   for v in m.values)
+    if (isinstance(m, ast.BinOp) and isinstance(m.op, ast.Mod) and isinstance(m.left, ast.Constant)
+            and type(m.left.value) is str and isinstance(m.right, ast.Name)):
+        f = m.left.value
+        return f.count("%") == 1 and (("%r" in f) or ("%s" in f))
+    return False
+
+
 def stmt(s, ind):
-    if isinstance(s, ast.Expr) and isinstance(s.value, ast.Constant) and isinstance(s.value.value, str):
-        return "SPass"                                      # docstring
+    if isinstance(s, ast.Expr):
+        if isinstance(s.value, ast.Constant) and isinstance(s.value.value, str):
+            return "SPass"                                  # docstring
+        return "SExpr %s" % expr(s.value)
     if isinstance(s, ast.Pass):
         return "SPass"
     if isinstance(s, ast.Assign):
@@ -146,11 +213,67 @@ def stmt(s, ind):
     if isinstance(s, ast.Raise):
         e = s.exc
         if isinstance(e, ast.Call):
-            e = e.func                                      # the message does not matter
+            if e.keywords or len(e.args) > 1 or (e.args and not message_ok(e.args[0])):
+                bad(s, "exception arguments outside the subset")
+            e = e.func
         if not isinstance(e, ast.Name) or s.cause is not None:
             bad(s, "raise outside the subset")
         return "SRaise %s" % (e.id if e.id in EXN else "OtherError")
+    if isinstance(s, ast.Assert):
+        if s.msg is not None and not message_ok(s.msg):
+            bad(s, "assert message outside the subset")
+        return "SAssert %s" % expr(s.test)
+    if isinstance(s, ast.Try):
+        if s.finalbody or len(s.handlers) != 1:
+            bad(s, "try statement outside the subset")
+        h = s.handlers[0]
+        if h.name is not None or not isinstance(h.type, ast.Name) or h.type.id not in EXN:
+            bad(s, "exception handler outside the subset")
+        return "STry %s %s %s %s" % (block(s.body, ind), h.type.id, block(h.body, ind), block(s.orelse, ind))
     bad(s, "statement outside the subset")
+
+
+def free_names(fd):
+    """names read in the body or the default values of the function (annotations are not evaluated by the
+    interpreter) that are not its parameters, assigned variables or comprehension variables"""
+    bound = {a.arg for a in fd.args.args}
+    loads = set()
+    for root in list(fd.body) + list(fd.args.defaults):
+        for n in ast.walk(root):
+            if isinstance(n, ast.Name):
+                if isinstance(n.ctx, ast.Load):
+                    loads.add(n.id)
+                else:
+                    bound.add(n.id)
+    return loads - bound
+
+
+def check_free_names(modname, mod, fname, fd, enums):
+    import builtins
+    translated = {f for m, f, _ in FUNCTIONS if m == modname}
+    g = vars(mod)
+    for n in sorted(free_names(fd)):
+        if n in BUILTINS or n in EXN:
+            if n in g or not hasattr(builtins, n):
+                raise TieError("%s.%s: builtin %s is shadowed by the module" % (modname, fname, n))
+            continue
+        if n not in g:
+            raise TieError("%s.%s: free name %s is neither a modelled builtin nor a module global" % (modname, fname, n))
+        v = g[n]
+        if n in translated:
+            if not inspect.isfunction(v) or v.__name__ != n or v.__module__ != modname:
+                raise TieError("%s.%s: %s is not the module's function of that name" % (modname, fname, n))
+            continue
+        if n in TABLE_GLOBALS.get(modname, ()):
+            continue
+        if isinstance(v, type) and issubclass(v, enum.Enum):
+            if len(list(v)) != len(v.__members__):
+                raise TieError("%s.%s: enum %s has aliases" % (modname, fname, n))
+            enums[n] = list(v.__members__)
+            continue
+        if n in STDLIB_MODULES and v is sys.modules.get(n) and inspect.ismodule(v):
+            continue
+        raise TieError("%s.%s: free name %s (%s) is not accounted for" % (modname, fname, n, type(v).__name__))
 
 
 def gen():
@@ -161,22 +284,31 @@ def gen():
            "Import ListNotations.",
            "Local Open Scope string_scope.",
            ""]
+    enums = {}
     for modname, fname, coqname in FUNCTIONS:
         mod = importlib.import_module(modname)
-        fn = getattr(mod, fname)
+        fn = getattr(mod, fname, None)
+        if not inspect.isfunction(fn) or fn.__name__ != fname or fn.__module__ != modname:
+            raise TieError("%s.%s is not a plain function of that module" % (modname, fname))
         src = textwrap.dedent(inspect.getsource(fn))
         tree = ast.parse(src)
         if len(tree.body) != 1 or not isinstance(tree.body[0], ast.FunctionDef):
             raise TieError("%s.%s is not a plain function" % (modname, fname))
         fd = tree.body[0]
         a = fd.args
-        if a.vararg or a.kwarg or a.kwonlyargs or a.defaults or a.posonlyargs or fd.decorator_list:
+        if a.vararg or a.kwarg or a.kwonlyargs or a.kw_defaults or a.posonlyargs or fd.decorator_list:
             raise TieError("%s.%s: signature outside the subset" % (modname, fname))
+        check_free_names(modname, mod, fname, fd, enums)
         params = [x.arg for x in a.args]
+        defaults = [expr(d) for d in a.defaults]
         out.append("(* %s.%s *)" % (modname, fname))
-        out.append("Definition %s : fundef :=\n  mkFun [%s]\n  %s." % (
-            coqname, "; ".join(q(p) for p in params), block(fd.body, 2)))
+        out.append("Definition %s : fundef :=\n  mkFun [%s] [%s]\n  %s." % (
+            coqname, "; ".join(q(p) for p in params), "; ".join(defaults), block(fd.body, 2)))
         out.append("")
+    out.append("(* member names of the Enum classes mentioned by the functions above *)")
+    out.append("Definition py_enums : list (string * list string) :=\n  [%s]." % "; ".join(
+        "(%s, [%s])" % (q(n), "; ".join(q(m) for m in ms)) for n, ms in sorted(enums.items())))
+    out.append("")
     return "\n".join(out)
 
 
